@@ -16,7 +16,8 @@ Definition who_eq_dec (a b : who) : {a = b} + {a <> b}. Proof. decide equality. 
 Definition event_eq_dec (a b : event) : {a = b} + {a <> b}.
 Proof. decide equality; auto using metakey_eq_dec, side_eq_dec, (list_eq_dec who_eq_dec), who_eq_dec. Defined.
 Definition rule_eq_dec (a b : rule) : {a = b} + {a <> b}. Proof. decide equality. Defined.
-Definition errc_eq_dec (a b : errc) : {a = b} + {a <> b}. Proof. decide equality. Defined.
+Definition errkind_eq_dec (a b : errkind) : {a = b} + {a <> b}. Proof. decide equality. Defined.
+Definition errc_eq_dec (a b : errc) : {a = b} + {a <> b}. Proof. decide equality; apply errkind_eq_dec. Defined.
 Definition outcome_eq_dec (a b : outcome) : {a = b} + {a <> b}.
 Proof.
   decide equality; auto using metakey_eq_dec, side_eq_dec, rule_eq_dec, errc_eq_dec, bool_dec, N.eq_dec.
@@ -59,9 +60,9 @@ Proof.
     + apply in_map. apply IH; [simpl in Hl; lia | intros x Hx; apply Hin; right; exact Hx].
 Qed.
 
-Definition all_fres : list fres := [FBool true; FBool false; FVal; FNull; FSeq; FUnimpl; FErr].
+Definition all_fres : list fres := [FBool true; FBool false; FVal; FNull; FSeq; FUnimpl; FErr Thrown; FErr Runtime].
 Lemma In_all_fres : forall f, In f all_fres.
-Proof. intros [[|]| | | | |]; simpl; tauto. Qed.
+Proof. intros [[|]| | | | |[|]]; simpl; tauto. Qed.
 
 Definition plain_kinds : list kind :=
   [VNull; VBool; VNumber; VStr; VList; VTuple; VRange; VFunction; VIterator].
@@ -164,7 +165,7 @@ Proof. vm_compute. repeat split. Qed.
 Definition rhs_event (a : arith) : event := Ev R (k_rhs a) WR [WL].
 Definition lhs_event (a : arith) : event := Ev L (k_op a) WL [WR].
 Definition is_unimpl (f : fres) : bool := match f with FUnimpl => true | _ => false end.
-Definition is_value (f : fres) : bool := match f with FUnimpl | FErr => false | _ => true end.
+Definition is_value (f : fres) : bool := match f with FUnimpl | FErr _ => false | _ => true end.
 Definition no_core (a : arith) (l r : kind) : bool := match core_arith a l r with None => true | Some _ => false end.
 
 Definition rhs_runs (o : oracle) (a : arith) (l r : kind) : bool :=
@@ -254,6 +255,38 @@ Proof.
   pose proof (sweep_lift check_lhs_only sweep_lhs_only p l r fs Hl Hr Hfs) as H.
   destruct p; try (exfalso; eapply Hp; reflexivity);
     simpl in H; rewrite forallb_forall in H; specialize (H e He); destruct (ev_owner e); simpl in H; congruence.
+Qed.
+
+(* ------------------------------------------------------------------ 2b. errors propagate unchanged *)
+
+Definition check_err (p : op) (l r : kind) (fs : list fres) : bool :=
+  let o := oracle_of (sites p) fs in
+  let act := dispatch o p l r in
+  errors_delivered o p l (fst act) (snd act) && Nat.eqb (leftover_frames o p l r) 0.
+
+Lemma sweep_err : forallb (sweep check_err) all_ops = true.
+Proof. vm_compute. reflexivity. Qed.
+
+Theorem errors_propagate_unchanged :
+  forall p l r fs,
+    In l (lkinds p) -> In r (rkinds p) -> List.length fs = List.length (sites p) ->
+    let o := oracle_of (sites p) fs in
+    errors_delivered o p l (fst (dispatch o p l r)) (snd (dispatch o p l r)) = true.
+Proof.
+  intros p l r fs Hl Hr Hfs o.
+  pose proof (sweep_lift check_err sweep_err p l r fs Hl Hr Hfs) as H.
+  unfold check_err in H. fold o in H. apply andb_true_iff in H. tauto.
+Qed.
+
+(* for EVERY oracle and operand: no run-now call leaves its frame behind, whatever the error *)
+Lemma barrier_never_left : forall r, barrier_cleanup r <> LeftBehind.
+Proof. intros [b| | | | |ek]; simpl; discriminate. Qed.
+
+Theorem no_frame_left_behind : forall o p l r, leftover_frames o p l r = 0.
+Proof.
+  intros o p l r. unfold leftover_frames.
+  induction (fst (dispatch o p l r)) as [|e rest IH]; [reflexivity|].
+  simpl. destruct (o (ev_owner e) (ev_key e)) as [b| | | | |ek]; simpl; rewrite ?andb_false_r; exact IH.
 Qed.
 
 (* ------------------------------------------------------------------ 3. derived comparisons *)
